@@ -136,10 +136,19 @@ class Prop(core.Prop):
             yield dict(group, dlens=dl[:2], form='method', reverse=True)
 
     # ------------------------------------------------------------------
+    def _call(self, fn, lst, *a, **k):
+        """call fn(lst, ...) and record whether the list the caller handed over was changed"""
+        before = list(lst)
+        out = fn(lst, *a, **k)
+        if len(lst) != len(before) or any(x is not y for x, y in zip(lst, before)):
+            self._argmod = 'the list of %d items handed to %s has %d items afterwards' % (
+                len(before), getattr(fn, '__name__', 'stack'), len(lst))
+        return out
+
     def _stack(self, form, reals, d):
         P = lib.pnc()
         if form == 'method':
-            return reals[0].stack(reals[1:], d)
+            return self._call(reals[0].stack, reals[1:], d)
         if form == 'method-disk':
             # the pieces are netCDF-backed files; the receiver is an in-memory copy of the first
             disk = []
@@ -150,10 +159,10 @@ class Prop(core.Prop):
                 r.save(p, format='NETCDF4_CLASSIC', verbose=0).close()
                 disk.append(P.pncopen(p, format='netcdf'))
             self._open = disk
-            return disk[0].stack(disk[1:], d)
+            return self._call(disk[0].stack, disk[1:], d)
         if form == 'stack_files':
             from PseudoNetCDF.core._functions import stack_files
-            return stack_files(list(reals), d)
+            return self._call(stack_files, list(reals), d)
         if form == 'pncmfopen':
             paths = []
             saved = {}
@@ -168,7 +177,7 @@ class Prop(core.Prop):
                 r.save(p, format='NETCDF4_CLASSIC', verbose=0).close()
                 paths.append(p)
                 saved[id(r)] = p
-            return P.pncmfopen(paths, stackdim=d, format='netcdf')
+            return self._call(P.pncmfopen, paths, stackdim=d, format='netcdf')
         raise ValueError(form)
 
     def run_ioapi(self, case):
@@ -269,11 +278,14 @@ class Prop(core.Prop):
             scope = dict(form=form, splitter='none', npieces=len(reals), dim=d)
         states = [before] + [rfile.canon(p) for p in pieces_r]
         try:
+            self._argmod = None
             got = self._stack(form, reals, d)
         except Exception as e:
             vs.append(viol('in-domain-raises', sig, '%s: %r' % (type(e).__name__, e),
                            exc=type(e).__name__, **scope))
             return result('viol', vs, states, len(reals))
+        if self._argmod:
+            vs.append(viol('argument-modified', sig, self._argmod, **scope))
         wf = lib.wellformed(got)
         if wf:
             vs.append(viol('not-wellformed', sig, '; '.join(wf), **scope))
